@@ -19,7 +19,10 @@ frame (`Model.C07.dvVisit3/2`, bit-exact legs `dv3_visit` / `dv2_visit` on the r
   bound of the distance of EVERY part below the lane to the other shape (the statement asked for in the property: the bound
   "only prunes work");
 * `distVisitor_optimal3` / `distVisitor_optimal2` – hence the best-first traversal returns the minimum over all parts of the
-  per-part distance.
+  per-part distance;
+* `tvVisit{3,2}_lower_bound` – the linear shape-cast visitor (`Model.C07.tvVisit3/2`, legs `tv3_visit` / `tv2_visit`): margin
+  `half_extents + target_distance`, ray from the origin along `vel12`: a lane holding a part that the moving shape approaches to
+  within `target_distance` at a time `t ≤ max_toi` is kept with weight `≤ t`.
 -/
 namespace C07
 open Model Model.C07 Model.Bvh Model.Bvh.Tree
@@ -319,6 +322,49 @@ example : letI := fieldNum ℝ Real.sqrt
     refine ⟨?_, fun m hm => hm bd.2 c rfl rfl⟩
     simp only [t, leaves, leavesList, List.append_nil, List.singleton_append, List.mem_cons, List.not_mem_nil, or_false] at hbd
     rcases hbd with rfl | rfl <;> (rintro p rfl; simp only [InBox]; norm_num)
+
+/-! ### the linear shape-cast visitor -/
+
+/-- **shape-cast visitor, lower bound (3-D)**: if at some time `0 ≤ t ≤ max_toi` a point `p1` of the lane box and a point `p2`
+of `ls_aabb2` translated by `t·vel12` are within `target_distance` of each other on every axis (in particular: the part and
+the moving shape touch, or are at Euclidean distance `≤ target_distance`), then the lane of
+`TOICompositeShapeShapeBestFirstVisitor::visit` is not masked out and its weight is `≤ t` – the Minkowski-sum box with
+`shift = -ls_aabb2.center()`, `margin = ls_aabb2.half_extents() + target_distance` never prunes a part that could give
+an earlier impact. -/
+theorem tvVisit3_lower_bound (big : K) (aabb2 bv : Aabb3 K) (td : K) (vel : V3 K) (maxToi t : K) (p1 p2 : V3 K)
+    (ht0 : 0 ≤ t) (htm : t ≤ maxToi) (hbig : maxToi ≤ big) :
+    letI := fieldNum K sq
+    InBox bv p1 → InBox aabb2 p2 →
+    |p1.x - (p2.x + t * vel.x)| ≤ td → |p1.y - (p2.y + t * vel.y)| ≤ td → |p1.z - (p2.z + t * vel.z)| ≤ td →
+    (tvVisit3 big aabb2 td vel maxToi bv).1 = true ∧ (tvVisit3 big aabb2 td vel maxToi bv).2 ≤ t := by
+  letI := fieldNum K sq
+  rintro ⟨⟨a1, a2⟩, ⟨a3, a4⟩, a5, a6⟩ ⟨⟨b1, b2⟩, ⟨b3, b4⟩, b5, b6⟩ hx hy hz
+  rw [abs_le] at hx hy hz
+  refine laneCastRay3_lower_bound sq big _ V3.zero vel maxToi t ht0 htm hbig ?_
+  simp only [InBox, rayPoint3, msumBox, dvShift3, dvMargin3, tvMargin3, V3.center, V3.add, V3.neg, V3.sub, V3.smul, V3.zero,
+    fieldNum_lit, half_eq]
+  refine ⟨⟨?_, ?_⟩, ⟨?_, ?_⟩, ?_, ?_⟩ <;> linarith [hx.1, hx.2, hy.1, hy.2, hz.1, hz.2]
+
+/-- **shape-cast visitor, lower bound (2-D)** -/
+theorem tvVisit2_lower_bound (big : K) (aabb2 bv : Aabb2 K) (td : K) (vel : V2 K) (maxToi t : K) (p1 p2 : V2 K)
+    (ht0 : 0 ≤ t) (htm : t ≤ maxToi) (hbig : maxToi ≤ big) :
+    letI := fieldNum K sq
+    InBox2 bv p1 → InBox2 aabb2 p2 →
+    |p1.x - (p2.x + t * vel.x)| ≤ td → |p1.y - (p2.y + t * vel.y)| ≤ td →
+    (tvVisit2 big aabb2 td vel maxToi bv).1 = true ∧ (tvVisit2 big aabb2 td vel maxToi bv).2 ≤ t := by
+  letI := fieldNum K sq
+  rintro ⟨⟨a1, a2⟩, a3, a4⟩ ⟨⟨b1, b2⟩, b3, b4⟩ hx hy
+  rw [abs_le] at hx hy
+  refine laneCastRay2_lower_bound sq big _ V2.zero vel maxToi t ht0 htm hbig ?_
+  simp only [InBox2, rayPoint2, msumBox2, dvShift2, dvMargin2, tvMargin2, V2.center, V2.add, V2.neg, V2.sub, V2.smul, V2.zero,
+    fieldNum_lit, half_eq]
+  refine ⟨⟨?_, ?_⟩, ?_, ?_⟩ <;> linarith [hx.1, hx.2, hy.1, hy.2]
+
+/-- non-vacuity of `tvVisit2_lower_bound`: lane box `[4,5]×[0,1]`, other box `[0,1]×[0,1]` moving with `vel = (1,0)`:
+`p1 = (4,0)`, `p2 = (1,0)` meet at `t = 3 ≤ max_toi = 3` (a hit exactly at the time limit), `target_distance = 0` -/
+example : InBox2 (K := ℚ) ⟨⟨4, 0⟩, ⟨5, 1⟩⟩ ⟨4, 0⟩ ∧ InBox2 (K := ℚ) ⟨⟨0, 0⟩, ⟨1, 1⟩⟩ ⟨1, 0⟩ ∧
+    |(4 : ℚ) - (1 + 3 * 1)| ≤ 0 ∧ |(0 : ℚ) - (0 + 3 * 0)| ≤ 0 ∧ (0 : ℚ) ≤ 3 ∧ (3 : ℚ) ≤ 3 := by
+  refine ⟨⟨⟨?_, ?_⟩, ?_, ?_⟩, ⟨⟨?_, ?_⟩, ?_, ?_⟩, ?_, ?_, ?_, ?_⟩ <;> norm_num
 
 end dv
 end C07
